@@ -3,6 +3,7 @@ package main
 import (
 	"fmt"
 	"go/token"
+	"go/types"
 	"strings"
 
 	"golang.org/x/tools/go/ssa"
@@ -620,6 +621,12 @@ func tableCondEval(d *Dispatch, row Row) func(ssa.Value) (bool, bool) {
 				return true, true
 			}
 			if o.Name == "false" {
+				return false, true
+			}
+		}
+		if o, ok := row.TabEnv[v]; ok && o.K == "zero" {
+			// a field the element's literal does not set: the zero value
+			if b, isB := v.Type().Underlying().(*types.Basic); isB && b.Kind() == types.Bool {
 				return false, true
 			}
 		}
